@@ -24,6 +24,7 @@ NX = {"e", "r"}
 def run(ctx: Ctx) -> int:
     # ---------------- C16.a ---------------------------------------------------
     init = ctx.func("_link_arguments:ActionLink.__init__")
+    ctx.expect_locals(init, ["parser", "apply_on"])
     g = ctx.cfg(init)
     app = [c for c in calls_in(init) if call_leaf(c) == "append" and dotted(c.func.value) == "parser._links_group._group_actions" and c.args and root_name(c.args[0]) == "self"]
     io = [c for c in calls_in(init) if call_leaf(c) == "instantiation_order"]
@@ -44,6 +45,7 @@ def run(ctx: Ctx) -> int:
 
     # instantiation_order: one edge per (source, target) of every instantiation link, result = topological order
     iof = ctx.func("_link_arguments:ActionLink.instantiation_order")
+    ctx.expect_locals(iof, ["actions", "action", "target", "graph", "seen_targets", "targets"])
     edges = [c for c in calls_in(iof) if call_leaf(c) == "add_edge"]
     ctx.need(edges, "instantiation_order: graph.add_edge")
     link_edges = [c for c in edges if c.args and "source" in ast.unparse(c.args[0]) and root_name(c.args[1]) == "target"]
@@ -58,6 +60,7 @@ def run(ctx: Ctx) -> int:
 
     # ---------------- C16.b ---------------------------------------------------
     ic = ctx.func("_core:ArgumentParser.instantiate_classes")
+    ctx.expect_locals(ic, ["components", "order", "component", "cfg"])
     g = ctx.cfg(ic)
     loop = None
     for n in walk_local(ic):
@@ -167,6 +170,7 @@ def run(ctx: Ctx) -> int:
     ctx.oblige("C16.c", ok, c0, "finished nodes are prepended (reverse post-order = topological order)" if ok else "finished nodes are no longer prepended at position 0", fn=ts, construct="prepend source")
 
     gto = ctx.func("_link_arguments:DirectedGraph.get_topological_order")
+    ctx.expect_locals(gto, ["exploring", "visited", "order", "source"])
     g2 = ctx.cfg(gto)
     calls = [c for c in calls_in(gto) if call_leaf(c) == "topological_sort"]
     ctx.need(calls, "get_topological_order: call of topological_sort")
@@ -181,6 +185,7 @@ def run(ctx: Ctx) -> int:
 
     # ---------------- C16.d ---------------------------------------------------
     af = ctx.func("_link_arguments:ActionLink.apply_instantiation_links")
+    ctx.expect_locals(af, ["applied_links", "link_actions", "action", "cfg", "applied_key"])
     g = ctx.cfg(af)
     stv = [c for c in calls_in(af) if call_leaf(c) == "set_target_value"]
     add = [c for c in calls_in(af) if call_leaf(c) == "add" and root_name(c.func) == "applied_links"]
